@@ -263,7 +263,7 @@ def main(tier, replay=None):
     res.coverage["rule"] = (
         "corpus of minimised inputs first (F5 witnesses `x<euro>` etc., bit strings after multi-unit characters, "
         "line breaks inside character literals, the open finding); all strings of length <= 3 (thorough: 4) over the "
-        "22-symbol alphabet {x b e 1 _ \" ' \\ # . - / * SP LF CR euro U+1F600 e-acute ? = `}; random inputs from seed: "
+        "23-symbol alphabet {x b e 1 _ \" ' \\ # . - / * SP LF CR euro U+1F600 e-acute ? = ` :}; random inputs from seed: "
         "30% clean token soups (identifiers, keywords in random case, all delimiters, decimal/based/real literals, bit "
         "strings, strings, extended identifiers, character literals; gaps of blanks, tabs, LF/CR/CRLF, line and block "
         "comments holding non-Latin-1 and supplementary-plane characters), 40% dirty soups (every TokenError kind: bad "
